@@ -153,5 +153,5 @@ pub fn c10(o: &Opts) -> i32 {
     ctx.finish(evaluations,
         "count_positions(d) for d = 0..max on perft-suite/corpus positions and random set-ups, on rayon pools of 1/2/3/5/8/16 threads, with brand-new generators and with one generator reused across all depths and positions (as the CLI routine does), compared with the reference engine's cumulative perft; thorough adds depth 5 from the initial position in a child process; the `chess count-positions` binary built from /repo is run and its figures parsed. distinct_nontrivial = distinct (position, depth, pool, generator mode) whose true count exceeds 1000",
         &["reference perft reproduces the published node counts at start-up"],
-        &[("counts_with_fresh_generator", 15), ("counts_with_used_generator", 10), ("pool_sweep_counts", 64), ("deepest_count_depth", if q { 4 } else { 5 })])
+        &[("counts_with_fresh_generator", 15), ("counts_with_used_generator", 10), ("pool_sweep_counts", 32), ("deepest_count_depth", if q { 4 } else { 5 })])
 }
